@@ -65,3 +65,23 @@ Theorem c03_every_accepted_file : forall bs z h h2 t al h',
 Proof. exact accepted_c03_roundtrip_lemma. Qed.
 Print Assumptions c03_every_accepted_file.
 
+
+From CCTZ Require Import ZoneSpec WholeDomain C01Whole.
+From CCTZ Require C02Whole.
+(* END TO END against the TZif specification, every int64 instant (inside and beyond the table; the periodic-tail
+   hypothesis of c03_roundtrip_future is discharged): BreakTime reports what the file designates for t, and MakeTime
+   on that civil second is UNIQUE with pre = t, or REPEATED with t = pre or t = post - never SKIPPED.  The converse
+   clause (every instant returned for a UNIQUE / REPEATED civil second displays it) is part of c02_whole. *)
+Theorem c03_whole : forall bs h a,
+  parse_ast bs = Some (h, a) -> wf_ast h a = true -> c01_domain h a = true ->
+  footer_below_day a = true -> table_gaps_ok a = true ->
+  exists z, load_bytes bs = OK (Some z) /\
+    forall hint hint2 t, int64 t ->
+      exists al h' cl h'',
+        break_time z hint t = OK (al, h') /\
+        spec_lookup (szone_of a) t = Some (mkSL (al_cs al) (al_off al) (al_dst al) (al_abbr al)) /\
+        make_time z hint2 (al_cs al) = OK (cl, h'') /\
+        ((cl_kind cl = UNIQUE /\ cl_pre cl = t) \/
+         (cl_kind cl = REPEATED /\ (cl_pre cl = t \/ cl_post cl = t))).
+Proof. exact C02Whole.c03_whole_ast. Qed.
+Print Assumptions c03_whole.
